@@ -83,6 +83,8 @@ class Ctx(object):
         self._case_nontrivial = False
         self.soft_budget = None
         self.truncated = False
+        self.casefile = None
+        self._casefd = None
 
     # ------------------------------------------------------------ generation
     def rng(self, *key):
@@ -102,6 +104,16 @@ class Ctx(object):
 
     # ------------------------------------------------------------ cases
     def begin_case(self, desc, nontrivial=True):
+        if self.casefile is not None:
+            # breadcrumb for the supervising parent, should the code under test kill this process
+            try:
+                if self._casefd is None:
+                    self._casefd = os.open(self.casefile, os.O_WRONLY | os.O_CREAT | os.O_TRUNC)
+                data = jdump(desc).encode() + b' ' * 64
+                os.pwrite(self._casefd, data, 0)
+                os.ftruncate(self._casefd, len(data))
+            except OSError:
+                pass
         self._case = desc
         self._case_evals = 0
         self._case_nontrivial = nontrivial
